@@ -406,6 +406,9 @@ class MergeInitialize(InitializeSparse):
 
         phi = 0
         lamb = 0
+        if norm == 0:
+            # both amplitudes are listed zeros: nothing to merge
+            return 0.0, phi, lamb
         # there is no minus on the theta because the intetion is to compute the inverse
         if isinstance(amplitude_1, complex) or isinstance(amplitude_2, complex):
             amplitude_1 = (
@@ -419,12 +422,12 @@ class MergeInitialize(InitializeSparse):
                 else amplitude_2
             )
 
-            theta = -2 * np.arcsin(np.abs(amplitude_2 / norm))
+            theta = -2 * np.arcsin(min(1.0, np.abs(amplitude_2 / norm)))
             lamb = np.log(amplitude_2 / norm).imag
             phi = np.log(amplitude_1 / norm).imag - lamb
 
         else:
-            theta = -2 * np.arcsin(amplitude_2 / norm)
+            theta = -2 * np.arcsin(np.clip(amplitude_2 / norm, -1.0, 1.0))
 
         return theta, phi, lamb
 
